@@ -22,13 +22,26 @@ TRUSTED_BASE_COMMON = [
 
 
 def _replay_build():
-    """(re)build the replay crate against the current /repo; returns path to binary or None"""
-    gen = os.path.join(VERIF, "replay", "gen_registry.py")
-    run([sys.executable, gen], cwd=os.path.join(VERIF, "replay"))
-    rc, so, se, wall = run(["cargo", "build", "--offline", "--release", "--features", "serialize",
-                            "--target-dir", os.path.join(BUILD, "replay")],
-                           cwd=os.path.join(VERIF, "replay"), timeout=900)
-    binp = os.path.join(BUILD, "replay", "release", "replay")
+    """(re)build the replay crate against the current repo tree; returns path to binary or None"""
+    src = os.path.join(VERIF, "replay")
+    tdir = os.path.join(BUILD, "replay")
+    run([sys.executable, os.path.join(src, "gen_registry.py")], cwd=src)
+    if os.path.realpath(REPO) != "/repo":
+        # evaluation of a scratch copy of the repository (VERIF_REPO): same crate sources, path dependency redirected
+        import shutil, hashlib
+        tag = hashlib.md5(REPO.encode()).hexdigest()[:8]
+        alt = os.path.join(BUILD, "replay_src_" + tag)
+        if os.path.isdir(alt):
+            shutil.rmtree(alt)
+        shutil.copytree(src, alt, ignore=shutil.ignore_patterns("target"))
+        ct = open(os.path.join(alt, "Cargo.toml")).read().replace('path = "/repo"', 'path = "%s"' % REPO)
+        open(os.path.join(alt, "Cargo.toml"), "w").write(ct)
+        mr = open(os.path.join(alt, "src", "main.rs")).read()
+        open(os.path.join(alt, "src", "main.rs"), "w").write(mr)
+        src, tdir = alt, os.path.join(BUILD, "replay_" + tag)
+    rc, so, se, wall = run(["cargo", "build", "--offline", "--release", "--features", "serialize", "--target-dir", tdir],
+                           cwd=src, timeout=900)
+    binp = os.path.join(tdir, "release", "replay")
     if rc != 0 or not os.path.exists(binp):
         return None, (se or so)[-3000:]
     return binp, ""
